@@ -329,7 +329,11 @@ class CFG:
             kids = (s.kids + [None] * 8)[:8]
             init, rng, beg, end, cond, inc, loopvar, body = kids
             outs = self._stmt(init, outs)
-            a = self._atom(rng, outs)           # evaluates the range expression
+            hdr = Node('CompoundStmt')          # range expression, begin() and end()
+            hdr.kids = [x for x in (rng, beg, end) if x is not None]
+            if rng is not None:
+                hdr.file, hdr.line = rng.file, rng.line
+            a = self._atom(hdr, outs)
             a.label = 'range-init'
             head = self._join([(a.idx, None)], 'cond', cond, 'range-head')
             self._breaks.append([])
